@@ -16,6 +16,40 @@ class NetStream:
     inp: tuple
     pos: int = 0
     out: tuple = ()
+    arrived: object = None      # bytes delivered when the call starts (None: everything); the rest follows in one piece as soon as a blocking read waits for it
+    eof: bool = True            # the peer shuts its side down after the script (False: it stays silent)
+    nonblocking: bool = False
+
+
+def load_enum_decls(src_dir):
+    """`enum Name { A, B(..), C = 3 }` declarations of a crate -> {Name: [variants in order]} (for discriminants)."""
+    import os
+    decls = {}
+    for root, _d, files in os.walk(src_dir):
+        for fn in files:
+            if not fn.endswith(".rs"):
+                continue
+            text = open(os.path.join(root, fn), encoding="utf-8", errors="replace").read()
+            text = re.sub(r"//[^\n]*", "", text)
+            for m in re.finditer(r"\benum\s+(\w+)\s*(?:<[^{]*>)?\s*\{", text):
+                depth, i = 1, m.end()
+                body = ""
+                while i < len(text) and depth:
+                    c = text[i]
+                    depth += (c in "{(") - (c in "})")
+                    if depth == 1 and c not in "})":
+                        body += c
+                    elif depth == 1:
+                        body += " "
+                    i += 1
+                vs = []
+                for part in body.split(","):
+                    part = re.sub(r"#\[[^\]]*\]", "", part).strip()
+                    mm = re.match(r"(\w+)", part)
+                    if mm:
+                        vs.append(mm.group(1))
+                decls[m.group(1)] = vs
+    return decls
 
 
 def deref_all(ex, st, v):
@@ -48,15 +82,83 @@ def make_models():
         bref = ref_to(ex, st, args[1])
         buf = ex.deref(bref, st)
         n = len(ex.elements(buf))
+        arrived = s.arrived
+        if arrived is not None and s.pos + n > arrived:
+            arrived = len(s.inp)          # a blocking read waits: the rest of the script is delivered
         if s.pos + n > len(s.inp):
-            # the peer has closed: read_exact consumes what is left and fails
-            ex.write_ref(st, sref, replace(s, pos=len(s.inp)))
-            return enum("Err", ("opaque", "io::Error(UnexpectedEof)"))
+            # the peer has closed (or stays silent until the read times out): read_exact consumes what is left and fails
+            ex.write_ref(st, sref, replace(s, pos=len(s.inp), arrived=arrived))
+            return enum("Err", ("opaque", "io::Error:UnexpectedEof"))
         data = s.inp[s.pos:s.pos + n]
         new = buf.with_elements(data) if hasattr(buf, "with_elements") else ("agg", tuple(data))
         ex.write_ref(st, bref, new)
-        ex.write_ref(st, sref, replace(s, pos=s.pos + n))
+        ex.write_ref(st, sref, replace(s, pos=s.pos + n, arrived=arrived))
         return enum("Ok", UNIT)
+
+    def m_read(ex, st, args, dest_ty, fname):
+        sref = ref_to(ex, st, args[0])
+        s = ex.deref(sref, st)
+        bref = ref_to(ex, st, args[1])
+        buf = ex.deref(bref, st)
+        items = list(ex.elements(buf))
+        n = len(items)
+        have = (len(s.inp) if (s.arrived is None or not s.nonblocking) else min(s.arrived, len(s.inp))) - s.pos
+        if have <= 0:
+            if s.pos >= len(s.inp) and s.eof and (s.arrived is None or s.arrived >= len(s.inp)):
+                return enum("Ok", 0)
+            if s.nonblocking:
+                return enum("Err", ("opaque", "io::Error:WouldBlock"))
+            return enum("Err", ("opaque", "io::Error:TimedOut"))
+        k = min(n, have)
+        items[:k] = s.inp[s.pos:s.pos + k]
+        new = buf.with_elements(tuple(items)) if hasattr(buf, "with_elements") else ("agg", tuple(items))
+        ex.write_ref(st, bref, new)
+        ex.write_ref(st, sref, replace(s, pos=s.pos + k))
+        return enum("Ok", k)
+
+    def m_set_nb(flag):
+        def f(ex, st, args, dest_ty, fname):
+            sref = ref_to(ex, st, args[0])
+            s = ex.deref(sref, st)
+            ex.write_ref(st, sref, replace(s, nonblocking=flag))
+            return enum("Ok", UNIT)
+        return f
+
+    def m_is_err(ex, st, args, dest_ty, fname):
+        v = deref_all(ex, st, args[0])
+        return v[1] == "Err"
+
+    def m_result_ok(ex, st, args, dest_ty, fname):
+        v = args[0]
+        return some(v[2][0]) if v[1] == "Ok" else NONE
+
+    def m_err_kind(ex, st, args, dest_ty, fname):
+        v = deref_all(ex, st, args[0])
+        return ("enum", "ErrorKind::" + v[1].split(":")[-1], ())
+
+    def m_kind_eq(ex, st, args, dest_ty, fname):
+        a, b = deref_all(ex, st, args[0]), deref_all(ex, st, args[1])
+        return a[1] == b[1]
+
+    def m_index_from(ex, st, args, dest_ty, fname):
+        r = ref_to(ex, st, args[0])
+        n = len(ex.elements(ex.deref(r, st)))
+        start = args[1][1][0]
+        if is_sym(start):
+            raise ExecError("symbolic RangeFrom")
+        if start > n:
+            return Panic("range start index %d out of range for slice of length %d" % (start, n))
+        _, (kind, fid, local, proj) = r
+        return ("ref", (kind, fid, local, tuple(proj) + (("range", start, n),)))
+
+    def m_result_into_restion(ex, st, args, dest_ty, fname):
+        f = None
+        for k, fn in ex.ctx.funcs.items():
+            if not isinstance(fn, tuple) and k.endswith("::from") and "restion" in k and fn.args and fn.args[0][1].strip().startswith("Result<"):
+                f = fn
+        if f is None:
+            raise ExecError("From<Result<T, E>> for Restion<T, E> not found")
+        return ex.call_inplace(st, f, [args[0]])
 
     def m_write_all(ex, st, args, dest_ty, fname):
         sref = ref_to(ex, st, args[0])
@@ -108,6 +210,34 @@ def make_models():
         v = ex.deref(r, st)
         ex.write_ref(st, r, VecM(tuple(v.items) + (args[1],)))
         return UNIT
+
+    def m_vec_push_any(ex, st, args, dest_ty, fname):
+        return m_vec_push(ex, st, args, dest_ty, fname)
+
+    def m_vec_is_empty(ex, st, args, dest_ty, fname):
+        return len(elems(ex, st, args[0])) == 0
+
+    def m_vec_clear(ex, st, args, dest_ty, fname):
+        r = ref_to(ex, st, args[0])
+        ex.write_ref(st, r, VecM(()))
+        return UNIT
+
+    def m_vec_reserve(ex, st, args, dest_ty, fname):
+        return UNIT
+
+    def m_to_vec(ex, st, args, dest_ty, fname):
+        return VecM(elems(ex, st, args[0]))
+
+    def m_index(ex, st, args, dest_ty, fname):
+        r = ref_to(ex, st, args[0])
+        n = len(ex.elements(ex.deref(r, st)))
+        i = args[1]
+        if is_sym(i):
+            raise ExecError("symbolic Vec index")
+        if not (0 <= i < n):
+            return Panic("index out of bounds: the len is %d but the index is %d" % (n, i))
+        _, (kind, fid, local, proj) = r
+        return ("ref", (kind, fid, local, tuple(proj) + (("cindex", i, False),)))
 
     def m_vec_append(ex, st, args, dest_ty, fname):
         ra, rb = ref_to(ex, st, args[0]), ref_to(ex, st, args[1])
@@ -238,12 +368,34 @@ def make_models():
         M(r"^<humphrey::stream::Stream as std::io::Read>::read_exact$", m_read_exact),
         M(r"^<&mut humphrey::stream::Stream as std::io::Read>::read_exact$", m_read_exact),
         M(r"^<humphrey::stream::Stream as std::io::Write>::write_all$", m_write_all),
+        M(r"^<humphrey::stream::Stream as std::io::Read>::read$", m_read),
+        M(r"^humphrey::stream::Stream::set_nonblocking$", m_set_nb(True)),
+        M(r"^humphrey::stream::Stream::set_blocking$", m_set_nb(False)),
+        M(r"^Result::<\(\), std::io::Error>::is_err$", m_is_err),
+        M(r"^Result::<\(\), std::io::Error>::ok$", m_result_ok),
+        M(r"^std::io::Error::kind$", m_err_kind),
+        M(r"^<ErrorKind as PartialEq>::eq$", m_kind_eq),
+        M(r"^<\[u8; \d+\] as IndexMut<std::ops::RangeFrom<usize>>>::index_mut$", m_index_from),
+        M(r"^<Result<Frame, WebsocketError> as Into<Restion<Frame, WebsocketError>>>::into$", m_result_into_restion),
         M(r"^Result::<\(\), std::io::Error>::map_err::<WebsocketError, ", m_map_err),
         M(r"^Option::<&Frame>::map::<bool, ", m_opt_map),
         M(r"^Option::<bool>::unwrap_or$", m_opt_unwrap_or),
         M(r"^Vec::<(u8|Frame)>::new$", m_vec_new),
         M(r"^std::vec::from_elem::<u8>$", m_from_elem),
         M(r"^Vec::<u8>::len$", m_vec_len),
+        M(r"^core::slice::<impl \[u8\]>::len$", m_vec_len),
+        M(r"^Vec::<u8>::with_capacity$", m_vec_new),
+        M(r"^Vec::<u8>::push$", m_vec_push_any),
+        M(r"^Vec::<(u8|Frame)>::is_empty$", m_vec_is_empty),
+        M(r"^core::slice::<impl \[(u8|Frame)\]>::is_empty$", m_vec_is_empty),
+        M(r"^Vec::<(u8|Frame)>::clear$", m_vec_clear),
+        M(r"^Vec::<(u8|Frame)>::(reserve|reserve_exact|shrink_to_fit)$", m_vec_reserve),
+        M(r"^core::slice::<impl \[u8\]>::to_vec$", m_to_vec),
+        M(r"^<\[u8\] as ToOwned>::to_owned$", m_to_vec),
+        M(r"^<Vec<u8> as From<&\[u8\]>>::from$", m_to_vec),
+        M(r"^Vec::<u8>::as_slice$", m_deref_same),
+        M(r"^<Vec<u8> as AsRef<\[u8\]>>::as_ref$", m_deref_same),
+        M(r"^<Vec<(u8|Frame)> as Index<usize>>::index$", m_index),
         M(r"^Vec::<Frame>::push$", m_vec_push),
         M(r"^Vec::<u8>::append$", m_vec_append),
         M(r"^Vec::<u8>::extend_from_slice$", m_extend_from_slice),
